@@ -61,6 +61,12 @@ Example C10_partial_nonvacuous :
 Proof. exact guarded_prog_ok. Qed.
 Print Assumptions C10_partial_nonvacuous.
 
+(* being inside the guard is a property of the program, not of the iteration orders *)
+Theorem C10_guard_is_oracle_independent : forall s1 s2 p,
+  perm_family s1 -> perm_family s2 -> o_ok (transl s1 p) = o_ok (transl s2 p).
+Proof. exact guard_oracle_independent. Qed.
+Print Assumptions C10_guard_is_oracle_independent.
+
 (* the oracles the harness feeds to the extracted model are permutation oracles *)
 Theorem C10_harness_oracles_are_permutations : perm_family sigma_rank.
 Proof. exact sigma_rank_perm. Qed.
@@ -71,6 +77,19 @@ Theorem C10_result_is_permutation : forall s1 s2 c,
   perm_oracle s1 -> perm_oracle s2 -> Permutation (promote s1 c) (promote s2 c).
 Proof. exact promote_permutation. Qed.
 Print Assumptions C10_result_is_permutation.
+
+(* ---------------------------------------------------------------- the candidate repair (not the code as it is) *)
+(* `for name in sorted(new_names)` / `for name in sorted(promoted_set)`: order independent with NO guard ... *)
+Theorem C10_candidate_fix_order_independent : forall s1 s2 p,
+  perm_family s1 -> perm_family s2 -> transl_fixed s1 p = transl_fixed s2 p.
+Proof. exact transl_fixed_independent. Qed.
+Print Assumptions C10_candidate_fix_order_independent.
+
+(* ... and it changes no output for programs inside the guard *)
+Theorem C10_candidate_fix_conservative : forall s p,
+  perm_family s -> o_ok (transl s p) = true -> transl_fixed s p = transl s p.
+Proof. exact transl_fixed_conservative. Qed.
+Print Assumptions C10_candidate_fix_conservative.
 
 (* ---------------------------------------------------------------- the sorted() sites *)
 Theorem C10_sorted_site_order_independent : forall s1 s2 l,
